@@ -139,7 +139,7 @@ def run(res, args):
                 "RTCM streams) with chunk sizes 1..65536 and pauses 0/1/5 ms, stdout captured, the day's record file read after the "
                 "process has exited; every case repeated to sample the exit race; live streams (bursts, also of exact multiples of the 8096-byte block, with the input open and idle in between: what was fed must have come out within 4 s of silence); plus the repository's start() in-process (go test "
                 "-overlay; newLogWriter replaced) built with -race, with inputs up to 1.5 MB, a record writer that stalls, and input that keeps arriving for more than two seconds (a slow disk: the "
-                "recorder blocks in Write while the copy loop runs ahead); "
+                "recorder blocks in Write while the copy loop runs ahead), also with packets shorter than the block arriving a few ms apart and the input ending while the backlog is queued; "
                 "non-trivial = at least 2 blocks of input")
     res.assumptions = ["runs are kept away from local midnight (the daily writer's rotation is out of scope)",
                        "the interleaving of the copy loop and the recorder at end of input is sampled by repetition, not enumerated"]
@@ -240,6 +240,19 @@ def run(res, args):
     # input that keeps arriving for more than two seconds (anything the program does on a timer happens while data flows)
     cases.append("logger 1500000 4096 0 0 0 9 6000")
     cases.append("logger 600000 8096 0 0 0 10 30000")
+    # short reads (packets smaller than the block, a few ms apart) while the recorder is stuck in its first or
+    # second Write, end of input arriving while the backlog is still queued
+    cases += ["logger 9000 3000 1 300 0 11 2000", "logger 30000 1500 1 400 0 12 1000", "logger 20000 1000 2 300 0 13 500",
+              "logger 12000 4000 1 200 100 14 3000"]
+    # ... for a spread of packet sizes and packet counts (what is queued behind the stuck Write ranges from less
+    # than one block to several blocks)
+    for ck in (1000, 1500, 2000, 3000, 4000, 5000):
+        for npk in ((3, 4, 6, 7, 10) if res.tier != "quick" else {1000: (10,), 1500: (7,), 2000: (6,), 3000: (4,), 4000: (4, 3), 5000: (3,)}[ck]):
+            cases.append("logger %d %d 1 250 0 %d 1500" % (ck * npk, ck, 100 + ck // 100 + npk))
+    for k in range(0 if res.tier == "quick" else 40):
+        cases.append("logger %d %d %d %d %d %d %d" % (rng.choice([6000, 9000, 17000, 30000, 50000]), rng.choice([500, 1000, 1500, 3000, 4000, 8000]),
+                                                      rng.choice([1, 1, 2, 3]), rng.choice([100, 300, 500]), rng.choice([0, 0, 100]), rng.getrandbits(31),
+                                                      rng.choice([200, 1000, 3000])))
     obs, e = common.run_app_test(tbin, cases, "C16", shards=4)
     if e or len(obs) != len(cases):
         if e and ("DATA RACE" in e or "race detected" in e):
